@@ -22,8 +22,10 @@ def _walk_sequence(seq_bytes: bytes, out: list, depth=0):
         if c in (19, 20) and arg.is_map():  # set / override parameters
             for k, v in arg.children:
                 out.append((k.value, v))
-        elif c == 15 and arg.is_bstr():  # try-each: bstr [ bstr seq / nil ... ]
-            inner = cborr.try_parse(arg.value)
+        elif c == 15:  # try-each: [ bstr seq / nil ... ] (tolerate a bstr-wrapped array too)
+            inner = arg
+            if arg.is_bstr():
+                inner = cborr.try_parse(arg.value)
             if inner is not None and inner.is_array():
                 for el in inner.children:
                     if el.is_bstr():
